@@ -53,13 +53,22 @@ def recording_property(names):
     return sc
 
 
-def failing_property(names):
+def failing_property(names, chain=0):
+    """Becomes final on the meta-event at which HIT() answers True - directly, or (chain > 0) after that many further macro steps
+    of its own (eventless transitions): it is executed until it has nothing more to do, however long that takes."""
     sc = Statechart('kth')
     sc.add_state(CompoundState('proot', initial='w'), None)
     sc.add_state(BasicState('w'), 'proot')
     sc.add_state(FinalState('f'), 'proot')
+    first = 'f'
+    if chain:
+        for i in range(chain):
+            sc.add_state(BasicState('c%d' % i), 'proot')
+        for i in range(chain):
+            sc.add_transition(Transition('c%d' % i, 'c%d' % (i + 1) if i + 1 < chain else 'f'))
+        first = 'c0'
     for n in names:
-        sc.add_transition(Transition('w', 'f', event=n, guard='HIT()'))
+        sc.add_transition(Transition('w', first, event=n, guard='HIT()'))
     return sc
 
 
@@ -420,7 +429,10 @@ def run_case(acc, rnd, tier, case):
         def HIT():
             cnt[0] += 1
             return cnt[0] == kth
-        lst3 = it3.bind_property_statechart(failing_property(KINDS + ['m0', 'm1']),
+        chain = rnd.choice((0, 0, 0, 2, 11, 25))
+        if chain:
+            acc.count('failfast_runs_with_a_property_that_needs_several_steps_of_its_own')
+        lst3 = it3.bind_property_statechart(failing_property(KINDS + ['m0', 'm1'], chain),
                                      interpreter_klass=lambda s, clock: Interpreter(s, clock=clock, initial_context={'HIT': HIT}))
         r3 = Runner(it3, tmap3, log=None)
         k3 = 0
